@@ -25,6 +25,7 @@ Definition mem_hello : bytes := [72;101;108;108;111].  (* "Hello" *)
 Definition mem_ping : bytes := [80;105;110;103].  (* "Ping" *)
 Definition mem_getmid : bytes := [71;101;116;77;97;99;104;105;110;101;73;100].  (* "GetMachineId" *)
 Definition mem_noc : bytes := [78;97;109;101;79;119;110;101;114;67;104;97;110;103;101;100].  (* "NameOwnerChanged" *)
+Definition mem_request : bytes := [82;101;113;117;101;115;116;78;97;109;101].  (* "RequestName" *)
 Definition mem_lost : bytes := [78;97;109;101;76;111;115;116].  (* "NameLost" *)
 Definition mem_acquired : bytes := [78;97;109;101;65;99;113;117;105;114;101;100].  (* "NameAcquired" *)
 Definition err_failed : bytes := [111;114;103;46;102;114;101;101;100;101;115;107;116;111;112;46;68;66;117;115;46;69;114;114;111;114;46;70;97;105;108;101;100].  (* "org.freedesktop.DBus.Error.Failed" *)
@@ -155,14 +156,33 @@ Definition to_native (m : smsg) : smsg := if s_le m then m else swap_order m.
 (* ---------------- bus state ---------------------------------------------------------------- *)
 Definition conn := N.
 
+(* BusPendingActivationEntry with auto_activation set: the message is kept by reference, exactly
+   as bus_dispatch left it (stamped), together with the connection that wrote it.  The model names
+   that connection by its id AND the unique name it had: ids are reused by reconnecting clients,
+   unique names never are, so (live, same name) is the model's "the DBusConnection is still
+   connected". *)
+Record held := mkHeld {
+  h_name : bytes;                           (* the service being started *)
+  h_conn : conn;
+  h_sender : bytes;                         (* unique name of h_conn when it wrote the message *)
+  h_msg : smsg                              (* entry->activation_message *)
+}.
+
 Record bus := mkBus {
   b_major : Z;                              (* static int next_major_number *)
   b_minor : Z;                              (* static int next_minor_number *)
   b_conns : list (conn * option bytes);     (* live connections with BusConnectionData.name (NULL until Hello) *)
-  b_reg : list bytes                        (* names in the registry that begin with ':' *)
+  b_reg : list bytes;                       (* names in the registry that begin with ':' *)
+  b_owned : list (bytes * bytes);           (* well-known names the model saw being granted: name, owner's unique name *)
+  b_held : list held                        (* pending auto-activation entries, in arrival order *)
 }.
 
-Definition bus0 : bus := mkBus 0 0 [] [].
+Definition bus0 : bus := mkBus 0 0 [] [] [] [].
+
+Definition set_conns (b : bus) (l : list (conn * option bytes)) : bus :=
+  mkBus (b_major b) (b_minor b) l (b_reg b) (b_owned b) (b_held b).
+Definition set_held (b : bus) (l : list held) : bus :=
+  mkBus (b_major b) (b_minor b) (b_conns b) (b_reg b) (b_owned b) l.
 
 Fixpoint lookup (c : conn) (l : list (conn * option bytes)) : option (option bytes) :=
   match l with
@@ -182,6 +202,14 @@ Fixpoint set_name (c : conn) (n : bytes) (l : list (conn * option bytes)) : list
 Definition name_of (b : bus) (c : conn) : option bytes :=
   match lookup c (b_conns b) with Some (Some n) => Some n | _ => None end.
 
+(* bus_registry_lookup (registry, name) != NULL, as far as the model knows *)
+Definition is_owned (b : bus) (d : bytes) : bool :=
+  existsb (fun kv => bytes_eqb d (fst kv)) (b_owned b) || existsb (bytes_eqb d) (b_reg b).
+
+(* dbus_connection_get_is_connected (entry->connection) *)
+Definition still_there (b : bus) (h : held) : bool :=
+  match name_of b (h_conn h) with Some n => bytes_eqb n (h_sender h) | None => false end.
+
 (* connections->n_completed *)
 Definition n_completed (b : bus) : N :=
   nlen (filter (fun kv => match snd kv with Some _ => true | None => false end) (b_conns b)).
@@ -199,7 +227,9 @@ Inductive scope :=
                              that was captured before: match-rule holders only *)
 | STo (c : conn)          (* bus_transaction_send_from_driver to c (+ monitors) *)
 | SBroadcast              (* bus_dispatch_matches without sender / addressed recipient (+ monitors) *)
-| SSelf (c : conn).       (* queued directly on c's connection by libdbus; never captured *)
+| SSelf (c : conn)        (* queued directly on c's connection by libdbus; never captured *)
+| SReleased (c : conn).   (* bus_dispatch_matches from bus_activation_send_pending_auto_activation_messages:
+                             addressed recipient and match rules, NOT captured again *)
 
 Inductive item :=
 | TConn (c : conn)
@@ -211,7 +241,8 @@ Inductive item :=
 Inductive event :=
 | EConnect (c : conn)
 | ESend (c : conn) (m : smsg)
-| EDisconnect (c : conn).
+| EDisconnect (c : conn)
+| EActFail (name ename : bytes).                (* the process started for [name] exited / could not be executed / timed out *)
 
 Inductive outcome :=
 | Ok (b : bus) (tr : list item)
@@ -236,6 +267,10 @@ Section Bus.
      eavesdroppers are references to the same message) *)
   Variable reads_args : bus -> conn -> smsg -> bool.
   Variable on_disconnect : bus -> conn -> list dmsg.
+  (* is there a service file for this name that activation accepts (limits, activation-time policy)? *)
+  Variable activatable : bytes -> bool.
+  (* did bus_registry_acquire_service succeed for this RequestName (C04's subject)? *)
+  Variable granted : bus -> conn -> bytes -> bool.
 
   Definition emit_dmsg (b : bus) (d : dmsg) : item :=
     match d with
@@ -263,7 +298,7 @@ Section Bus.
       match mint (S (length (b_reg b))) (b_reg b) (b_major b) (b_minor b) with
       | inl f => Fault f
       | inr (name, mj, mn) =>
-          let b' := mkBus mj mn (set_name c name (b_conns b)) (name :: b_reg b) in   (* bus_connection_complete, bus_registry_ensure *)
+          let b' := mkBus mj mn (set_name c name (b_conns b)) (name :: b_reg b) (b_owned b) (b_held b) in   (* bus_connection_complete, bus_registry_ensure *)
           let m' := set_sender m name in                                              (* dbus_message_set_sender (message, name) *)
           Ok b' [ TIssue c name;
                   TEmit (OClient c) SMonitors m';
@@ -285,6 +320,30 @@ Section Bus.
         else Some [TEmit OLocal (SSelf c) (new_error m err_unknown_method [])]
     end.
 
+  (* a RequestName call as bus_driver_handle_acquire_service reads it *)
+  Definition request_name_of (m : smsg) : option bytes :=
+    if is_call m drv_name mem_request then
+      match s_body m with
+      | [VStr 115 name; VNum 117 _] => Some name
+      | _ => None
+      end
+    else None.
+
+  (* bus_activation_send_pending_auto_activation_messages: every kept message whose writer is still
+     connected is dispatched now ("resume dispatching where we left off in bus_dispatch()"); a
+     refusal is bounced to the writer as an error (part of [driver]) *)
+  Definition release (b : bus) (name : bytes) : list item :=
+    flat_map (fun h =>
+                if bytes_eqb (h_name h) name && still_there b h then
+                  TEmit (OClient (h_conn h)) (SReleased (h_conn h)) (h_msg h) :: map (emit_dmsg b) (driver b (h_conn h) (h_msg h))
+                else []) (b_held b).
+
+  (* try_send_activation_failure: an error reply for every kept message whose writer is still connected *)
+  Definition fail_all (b : bus) (name ename : bytes) : list item :=
+    flat_map (fun h =>
+                if bytes_eqb (h_name h) name && still_there b h then [error_reply b (h_conn h) (h_msg h) ename] else [])
+             (b_held b).
+
   (* bus_dispatch for a message m read from live connection c (not a monitor) *)
   Definition dispatch (b : bus) (c : conn) (cname : option bytes) (m : smsg) : outcome :=
     match peer_filter c m with
@@ -301,7 +360,7 @@ Section Bus.
               | Some n => let m2 := set_sender m1 n in
                           Ok b (TEmit (OClient c) (SRouted c) m2 :: map (emit_dmsg b) (driver b c m2))
               | None => let m2 := set_sender m1 not_active in
-                        Ok (mkBus (b_major b) (b_minor b) (remove_conn c (b_conns b)) (b_reg b))
+                        Ok (set_conns b (remove_conn c (b_conns b)))
                            [TEmit (OClient c) SMonitors m2; TGone c]
               end
         | Some d =>
@@ -323,16 +382,34 @@ Section Bus.
                     (* any other driver method (or a non-call, which the driver ignores); if the handler does
                        not fail, bus_dispatch goes on to bus_dispatch_matches *)
                     let m3 := if reads_args b c m2 then to_native m2 else m2 in
-                    Ok b (TEmit (OClient c) SMonitors m3 :: map (emit_dmsg b) (driver b c m2) ++ [TEmit (OClient c) (SMatches c) m3])
+                    match request_name_of m2 with
+                    | Some name =>
+                        if granted b c name then
+                          (* bus_registry_acquire_service ends with bus_activation_send_pending_auto_activation_messages *)
+                          let b' := mkBus (b_major b) (b_minor b) (b_conns b) (b_reg b)
+                                          (if is_owned b name then b_owned b else (name, n) :: b_owned b)
+                                          (filter (fun h => negb (bytes_eqb (h_name h) name)) (b_held b)) in
+                          Ok b' (TEmit (OClient c) SMonitors m3 :: map (emit_dmsg b) (driver b c m2) ++ release b name ++
+                                 [TEmit (OClient c) (SMatches c) m3])
+                        else Ok b (TEmit (OClient c) SMonitors m3 :: map (emit_dmsg b) (driver b c m2) ++ [TEmit (OClient c) (SMatches c) m3])
+                    | None =>
+                        Ok b (TEmit (OClient c) SMonitors m3 :: map (emit_dmsg b) (driver b c m2) ++ [TEmit (OClient c) (SMatches c) m3])
+                    end
               end
             else
               match cname with
               | None =>
                   (* "clients must talk to bus driver first": captured, then dbus_connection_close *)
-                  Ok (mkBus (b_major b) (b_minor b) (remove_conn c (b_conns b)) (b_reg b))
+                  Ok (set_conns b (remove_conn c (b_conns b)))
                      [TEmit (OClient c) SMonitors m2; TGone c]
               | Some n =>
-                  Ok b (TEmit (OClient c) (SRouted c) m2 :: map (emit_dmsg b) (driver b c m2))
+                  if negb (is_owned b d) && negb (N.testbit (s_flags m2) 1) && activatable d then
+                    (* service == NULL && dbus_message_get_auto_start: captured, then
+                       bus_activation_activate_service keeps the message; nothing is delivered now *)
+                    Ok (set_held b (b_held b ++ [mkHeld d c n m2]))
+                       (TEmit (OClient c) SMonitors m2 :: map (emit_dmsg b) (driver b c m2))
+                  else
+                    Ok b (TEmit (OClient c) (SRouted c) m2 :: map (emit_dmsg b) (driver b c m2))
               end
         end
     end.
@@ -342,7 +419,7 @@ Section Bus.
     | EConnect c =>
         match lookup c (b_conns b) with
         | Some _ => Ill
-        | None => Ok (mkBus (b_major b) (b_minor b) ((c, None) :: b_conns b) (b_reg b)) [TConn c]
+        | None => Ok (set_conns b ((c, None) :: b_conns b)) [TConn c]
         end
     | ESend c m =>
         match lookup c (b_conns b) with
@@ -356,16 +433,19 @@ Section Bus.
     | EDisconnect c =>
         match lookup c (b_conns b) with
         | None => Ill
-        | Some None => Ok (mkBus (b_major b) (b_minor b) (remove_conn c (b_conns b)) (b_reg b)) [TGone c]
+        | Some None => Ok (set_conns b (remove_conn c (b_conns b))) [TGone c]
         | Some (Some n) =>
             (* bus_connection_disconnected: owned names are released, the unique name last *)
-            Ok (mkBus (b_major b) (b_minor b) (remove_conn c (b_conns b)) (filter (fun x => negb (bytes_eqb x n)) (b_reg b)))
+            Ok (mkBus (b_major b) (b_minor b) (remove_conn c (b_conns b)) (filter (fun x => negb (bytes_eqb x n)) (b_reg b))
+                      (filter (fun kv => negb (bytes_eqb (snd kv) n)) (b_owned b)) (b_held b))
                (map (emit_dmsg b) (on_disconnect b c) ++
                 [ (* bus_service_remove_owner: NameLost is addressed to the connection that is gone, so
                      bus_transaction_send drops it, but it has been captured for the monitors *)
                   TEmit ODriver SMonitors (from_driver (Some n) (new_driver_signal mem_lost [ESet F_DESTINATION (VStr 115 n)] [VStr 115 n]));
                   noc n n []; TGone c])
         end
+    | EActFail name ename =>
+        Ok (set_held b (filter (fun h => negb (bytes_eqb (h_name h) name)) (b_held b))) (fail_all b name ename)
     end.
 
   (* a history; the trace produced so far is kept when a fault stops the run *)
